@@ -33,7 +33,20 @@ ScanOk(e, s) ==
    /\ (IF s.dest = "Bound" THEN BoundOk(e, s) /\ s.srid = wsrid
        ELSE IF want.ok THEN s.ok = 1 /\ s.v = want.v /\ s.srid = wsrid /\ s.valid = 1
        ELSE s.ok = 0 /\ s.wrong = 1)
-Ok(e) ==
+\* sizes: byte length of a geometry whose parts hold the given numbers of vertices (header = order byte + type word
+\* [+ SRID]; members of a multi-geometry carry their own header without SRID), and every decode path returned the value
+RECURSIVE SumParts(_, _, _)
+SumParts(ps, i, per) == IF i > Len(ps) THEN 0 ELSE per + 16 * ps[i] + SumParts(ps, i + 1, per)
+BigLen(e) == LET hdr == 5 + (IF e.srid # 0 THEN 4 ELSE 0) IN
+   CASE e.kind = "LineString" -> hdr + 4 + 16 * e.parts[1]
+     [] e.kind = "MultiPoint" -> hdr + 4 + 21 * e.parts[1]
+     [] e.kind = "Polygon" -> hdr + 4 + SumParts(e.parts, 1, 4)
+     [] e.kind = "MultiLineString" -> hdr + 4 + SumParts(e.parts, 1, 9)
+BigOk(e) == e.len = BigLen(e) /\ Len(e.same) >= 4 /\ \A i \in 1..Len(e.same) : e.same[i] = 1
+\* the hex entry points give the hex of Marshal's bytes for the same SRID (zero included), the Must variants agree,
+\* and a scanner reads the value and that SRID back from the text
+HexOk(e) == e.hex = 1 /\ e.must = 1 /\ e.whex = 1 /\ e.back = 1
+Ok(e) == IF e.k = "wkbbig" THEN BigOk(e) ELSE IF e.k = "wkbhex" THEN HexOk(e) ELSE
    /\ e.k = "wkb"
    \* a nil geometry - also a typed nil slice at the top level - encodes to no bytes
    /\ IF e.g.t = "nil" \/ e.topnil = 1 THEN e.bytes = <<>> /\ e.val = <<>> ELSE
